@@ -1564,3 +1564,107 @@ def _strip_clamp(e: ast.AST) -> ast.AST:
             return node
     import copy
     return R().visit(copy.deepcopy(e))
+
+
+# ------------------------------------------------------------------------------------------------ L rules (label order, result shape)
+
+def rule_L1(repo: Repo) -> RuleResult:
+    """Sort key of the labels.  argsort_index_numeric_only: a single level that is categorical or already increasing needs no
+    permutation (slice(None)), otherwise `index.argsort()`; several levels: each non-categorical, non-increasing level is replaced
+    by the RANK of its labels - np.argsort(level.argsort())[codes], the inverse permutation, not the permutation itself - and the
+    per-level codes go to the lexicographic sort in level order.  GroupBy._labels_argsort applies the key only when sorting was
+    requested and the labels are not already sorted."""
+    res = RuleResult("L1", "label sort key: rank of each level's labels (inverse permutation), levels in order, identity when already sorted")
+    f = repo.func("util", "argsort_index_numeric_only")
+    ip = f.named_params[0]
+    # single level
+    single = [i for i in f.node.body if isinstance(i, ast.If) and "nlevels" in norm(i.test)]
+    if not single:
+        raise AnalysisError("L1: single-level arm of argsort_index_numeric_only not found")
+    inner = [i for i in single[0].body if isinstance(i, ast.If)]
+    ok1 = False
+    if inner:
+        t = norm(inner[0].test)
+        ident = any(isinstance(r, ast.Return) and norm(r.value) == "slice(None)" for r in inner[0].body)
+        after = inner[0].orelse or single[0].body[single[0].body.index(inner[0]) + 1:]      # else-arm or fall-through
+        srt = any(isinstance(r, ast.Return) and norm(r.value) in (f"{ip}.argsort()", f"np.argsort({ip})") for r in after)
+        ok1 = "CategoricalDtype" in t and "is_monotonic_increasing" in t and " or " in t and ident and srt
+    (res.ok if ok1 else res.bad)(f, single[0], "single level: categorical or increasing -> slice(None), else index.argsort()",
+                                 "" if ok1 else "a single label level must be left alone when it is categorical or already increasing and "
+                                 "sorted by index.argsort() otherwise")
+    # several levels
+    loops = [l for l in f.node.body if isinstance(l, ast.For)]
+    if not loops:
+        raise AnalysisError("L1: level loop of argsort_index_numeric_only not found")
+    l = loops[0]
+    lvl, codes = (e.id for e in l.target.elts) if isinstance(l.target, ast.Tuple) and len(l.target.elts) == 2 else (None, None)
+    it_ok = isinstance(l.iter, ast.Call) and norm(l.iter.func) == "zip" and [norm(a) for a in l.iter.args] == [f"{ip}.levels", f"{ip}.codes"]
+    appends = [c for c in ast.walk(l) if isinstance(c, ast.Call) and isinstance(c.func, ast.Attribute) and c.func.attr == "append"]
+    rank_ok = asis_ok = False
+    lst = None
+    for c in appends:
+        lst = norm(c.func.value)
+        a = c.args[0]
+        if isinstance(a, ast.Name) and a.id == codes:
+            asis_ok = True
+        if isinstance(a, ast.Subscript) and norm(a.slice) == codes and norm(a.value) in (
+                f"np.argsort({lvl}.argsort())", f"{lvl}.argsort().argsort()", f"np.argsort(np.argsort({lvl}))"):
+            rank_ok = True
+    cond_ok = any(isinstance(i, ast.If) and "CategoricalDtype" in norm(i.test) and "is_monotonic_increasing" in norm(i.test) for i in l.body)
+    ok2 = it_ok and rank_ok and asis_ok and cond_ok
+    (res.ok if ok2 else res.bad)(f, l, "levels: codes as they are if categorical/increasing, else np.argsort(level.argsort())[codes]",
+                                 "" if ok2 else "a level whose labels are not in increasing order must contribute the RANK of each label "
+                                 "(np.argsort(level.argsort())[codes]); level.argsort()[codes] is the inverse of what is needed and orders "
+                                 "the groups wrongly as soon as a level has three or more out-of-order labels")
+    rets = [r for r in f.node.body if isinstance(r, ast.Return)]
+    ok3 = bool(rets) and lst is not None and isinstance(rets[-1].value, ast.Call) and norm(rets[-1].value.func).endswith("lexsort_indexer") \
+        and rets[-1].value.args and norm(rets[-1].value.args[0]) == lst
+    (res.ok if ok3 else res.bad)(f, rets[-1] if rets else f.node, "lexicographic sort of the per-level codes in level order",
+                                 "" if ok3 else "the per-level codes must be handed to lexsort_indexer as collected, first level first "
+                                 "(a reversed or re-ordered list sorts by the wrong key first)")
+    g = repo.func(CORE, "GroupBy._labels_argsort")
+    t = [i for i in g.node.body if isinstance(i, ast.If)]
+    ok4 = False
+    if t:
+        tt = norm(t[0].test)
+        ok4 = "self._sort" in tt and "not self._index_is_sorted" in tt and " and " in tt \
+            and any(isinstance(r, ast.Return) and "argsort_index_numeric_only(self.result_index)" in norm(r.value) for r in t[0].body) \
+            and any(isinstance(r, ast.Return) and norm(r.value) == "slice(None)"
+                    for r in (t[0].orelse or g.node.body[g.node.body.index(t[0]) + 1:]))
+    (res.ok if ok4 else res.bad)(g, g.node, "_labels_argsort: key only if sort requested and labels not already sorted",
+                                 "" if ok4 else "the label permutation must be computed exactly when sorting was requested and the labels "
+                                 "are not already in sorted order, and be the identity (slice(None)) otherwise")
+    return res
+
+
+def rule_L2(repo: Repo) -> RuleResult:
+    """_maybe_squeeze_to_1d: a result frame is reduced to its single column exactly when one 1-D input (or a list of scalars)
+    was given; the column's name is cleared only when the input had no name (get_array_name(values) is None)."""
+    res = RuleResult("L2", "result shape: squeezed to 1-D exactly for a single 1-D input; name cleared only for unnamed inputs")
+    f = repo.func(CORE, "GroupBy._maybe_squeeze_to_1d")
+    ps = f.named_params
+    if len(ps) < 3:
+        raise AnalysisError("L2: signature of _maybe_squeeze_to_1d changed")
+    r, values, nv = ps[0], ps[1], ps[2]
+    top = [i for i in f.node.body if isinstance(i, ast.If)]
+    if not top:
+        raise AnalysisError("L2: squeeze condition not found")
+    t = norm(top[0].test)
+    ok_cond = f"{nv} == 1" in t and f"isinstance({values}, ArrayType1D)" in t and " and " in t
+    (res.ok if ok_cond else res.bad)(f, top[0], f"squeeze when {t[:90]}",
+                                     "" if ok_cond else f"the frame must be squeezed when exactly one ({nv} == 1) 1-D array was given "
+                                     f"(isinstance({values}, ArrayType1D)); other conditions return the wrong shape")
+    sq = [s for s in top[0].body if isinstance(s, ast.Assign) and norm(s.value) in (f"{r}[{r}.columns[0]]", f"{r}.iloc[:, 0]")]
+    (res.ok if sq else res.bad)(f, top[0], "squeeze takes the first (only) column",
+                                "" if sq else "the squeezed result must be the frame's single column")
+    nm = [i for i in top[0].body if isinstance(i, ast.If)]
+    ok_name = bool(nm) and norm(nm[0].test) == f"get_array_name({values}) is None" and any(
+        isinstance(c, ast.Call) and isinstance(c.func, ast.Attribute) and c.func.attr == "rename" for c in ast.walk(nm[0]))
+    (res.ok if ok_name else res.bad)(f, nm[0] if nm else top[0], "name cleared only if get_array_name(values) is None",
+                                     "" if ok_name else "the name of the squeezed result may be cleared only when the input had no name; "
+                                     "named inputs must keep their name")
+    rets = [x for x in f.node.body if isinstance(x, ast.Return)]
+    ok_ret = bool(rets) and norm(rets[-1].value) == r
+    (res.ok if ok_ret else res.bad)(f, rets[-1] if rets else f.node, "returns the (possibly squeezed) result", "" if ok_ret else
+                                    "the function must return the result it was given (squeezed or not)")
+    return res
